@@ -587,6 +587,10 @@ func (mi *muxInst) videoData(u wunit) [][]byte {
 			au = append(au, append([]byte{1 << 1, 0x01}, payloadTail(u, 0)...))
 		}
 	case "av1":
+		// every other temporal unit opens with a temporal delimiter, as in a raw AV1 bit stream
+		if u.Seq%2 == 1 {
+			au = append(au, []byte{0x10})
+		}
 		// a temporal unit is random access iff it carries a sequence header
 		if u.RA {
 			au = append(au, av1Params[p].seqHdr)
